@@ -55,7 +55,7 @@ Qed.
 (* ------------------------------------------------------------------ guards: rejected inputs leave the state untouched *)
 Definition guard_rejects (c : call) : Prop :=
   (exists e, make_links c = Err e) \/
-  (exists lk, make_links c = Ok lk /\ check_structure [] (keys_of lk) = false).
+  (exists lk, make_links c = Ok lk /\ check_structure (keys_of lk) = false).
 
 Lemma reject_unchanged : forall hint s c,
   guard_rejects c ->
@@ -72,7 +72,7 @@ Lemma error_changed_is_oserror : forall hint s c e,
 Proof.
   intros hint s c e. unfold create_linked_view.
   destruct (make_links c) as [lk|e0]; simpl; [|congruence].
-  destruct (check_structure [] (keys_of lk)); simpl; [|congruence].
+  destruct (check_structure (keys_of lk)); simpl; [|congruence].
   destruct (update_view hint s (c_cwd c) (c_prefix c) lk) as [s' [e1|]]; simpl; congruence.
 Qed.
 
@@ -117,43 +117,51 @@ Proof.
            rewrite H2, <- app_assoc. reflexivity.
 Qed.
 
-(* what the check does guarantee: no key is a (non-empty) proper prefix of an EARLIER key *)
-Lemma check_structure_sound_aux : forall ks chk,
-  check_structure chk ks = true ->
-  forall l1 k l2, ks = l1 ++ k :: l2 ->
-    ~ In k chk /\ forall k', In k' l1 -> ~ In k (proper_prefixes k' []).
+(* the repaired check (fc0e7cc) is exact and does not depend on the order of the keys *)
+Lemma all_nodes_In : forall ks p,
+  In p (all_nodes ks) <-> exists k, In k ks /\ In p (proper_prefixes k []).
+Proof. intros ks p. unfold all_nodes. rewrite in_flat_map. reflexivity. Qed.
+
+Lemma proper_prefix_nodes : forall k k', k <> [] ->
+  (proper_prefix k k' = true <-> In k (proper_prefixes k' [])).
 Proof.
-  induction ks as [|k0 ks IH]; intros chk H l1 k l2 E.
-  - destruct l1; discriminate.
-  - simpl in H. destruct (path_mem k0 chk) eqn:M; [discriminate|].
-    destruct l1 as [|x l1]; simpl in E; inversion E; subst.
-    + split; [apply path_mem_false; exact M|]. intros k' [].
-    + specialize (IH _ H l1 k l2 eq_refl). destruct IH as [Hn Hl].
-      split.
-      * intro Hin. apply Hn. apply in_or_app. right. exact Hin.
-      * intros k' [->|Hk']; [|auto]. intro Hin. apply Hn. apply in_or_app. left. exact Hin.
+  intros k k' Hne. rewrite proper_prefixes_spec. unfold proper_prefix. rewrite andb_true_iff, is_prefix_spec. split.
+  - intros [[r ->] H2]. exists k, r. repeat split; auto.
+    intro; subst r. rewrite app_nil_r, path_eqb_refl in H2. discriminate.
+  - intros [a [b [Ha [Hb [-> E]]]]]. simpl in E. subst a. split; [eauto|].
+    apply negb_true_iff. apply not_true_is_false. intro H. apply path_eqb_eq in H.
+    assert (length k = length (k ++ b)) by (rewrite <- H; reflexivity).
+    rewrite app_length in H0. destruct b; [congruence|simpl in H0; lia].
 Qed.
 
-Lemma check_structure_sound : forall ks,
-  check_structure [] ks = true ->
-  forall l1 k l2 k', ks = l1 ++ k :: l2 -> In k' l1 -> k <> [] -> proper_prefix k k' = false.
+Lemma check_structure_iff : forall ks,
+  (forall k, In k ks -> k <> []) ->
+  (check_structure ks = true <-> forall k k', In k ks -> In k' ks -> proper_prefix k k' = false).
 Proof.
-  intros ks H l1 k l2 k' E Hin Hne.
-  destruct (check_structure_sound_aux ks [] H l1 k l2 E) as [_ Hl].
-  specialize (Hl k' Hin).
-  destruct (proper_prefix k k') eqn:P; auto. exfalso. apply Hl.
-  unfold proper_prefix in P. apply andb_true_iff in P. destruct P as [P1 P2].
-  apply is_prefix_spec in P1. destruct P1 as [r ->].
-  apply proper_prefixes_spec. exists k, r. repeat split; auto.
-  intro; subst r. rewrite app_nil_r, path_eqb_refl in P2. discriminate.
+  intros ks Hne. unfold check_structure. rewrite forallb_forall. split.
+  - intros H k k' Hk Hk'. specialize (H k Hk). apply negb_true_iff, path_mem_false in H.
+    destruct (proper_prefix k k') eqn:Pr; [|reflexivity]. exfalso. apply H.
+    apply all_nodes_In. exists k'. split; [exact Hk'|]. apply proper_prefix_nodes; auto.
+  - intros H k Hk. apply negb_true_iff, path_mem_false. intro Hin.
+    apply all_nodes_In in Hin. destruct Hin as [k' [Hk' Hp]].
+    apply proper_prefix_nodes in Hp; auto. rewrite (H k k' Hk Hk') in Hp. discriminate.
 Qed.
 
-(* ... and what it does not: the converse order is accepted (DESIGN F15) *)
+Lemma check_structure_order_independent : forall ks ks',
+  (forall k, In k ks -> k <> []) -> (forall k, In k ks <-> In k ks') ->
+  check_structure ks = check_structure ks'.
+Proof.
+  intros ks ks' Hne Hs.
+  assert (Hne' : forall k, In k ks' -> k <> []) by (intros k Hk; apply Hne, Hs, Hk).
+  apply Bool.eq_true_iff_eq. rewrite (check_structure_iff ks Hne), (check_structure_iff ks' Hne').
+  split; intros H k k' Hk Hk'; apply H; apply Hs; assumption.
+Qed.
+
 Definition s_a : str := [97%N].
 Definition s_b : str := [98%N].
-Lemma leafnode_order_dependent :
+Lemma leafnode_both_orders_rejected :
   let k1 := [s_a; s_job] in let k2 := [s_a; s_job; s_b; s_job] in
-  check_structure [] [k1; k2] = true /\ check_structure [] [k2; k1] = false /\ proper_prefix k1 k2 = true.
+  check_structure [k1; k2] = false /\ check_structure [k2; k1] = false.
 Proof. vm_compute. auto. Qed.
 
 (* ------------------------------------------------------------------ decidable equality of trees *)
